@@ -186,6 +186,102 @@ void run(const char* type) {
     run_gs<V>(type, has_gather<V>());
 }
 
+
+// ---- flows in one optimisation scope: the caller writes elements through the element type, the library reads /
+// writes the same memory (possibly through a punned pointer).  A stale or reordered access shows as old contents. ----
+template<class V> struct Flow {
+    typedef typename V::scalar T;
+    typedef typename UBits<T>::type U;
+    typedef std::array<U, V::width> Lanes;
+    typedef void (*LdFn)(T*, const T*, unsigned, T, Lanes*);
+    typedef void (*StFn)(T*, V, V, T*);
+};
+template<class V, unsigned N>
+__attribute__((noinline)) void flow_ld_ct(typename V::scalar* buf, const typename V::scalar* src, unsigned idx, typename V::scalar nv, typename Flow<V>::Lanes* out) {
+    for (unsigned i = 0; i < V::width; ++i) buf[i] = src[i];      // typed element stores
+    V a = avel::load<V, N>(buf);
+    buf[idx] = nv;                                                // one more typed store between two loads
+    V b = avel::load<V, N>(buf);
+    out[0] = raw_lanes<V>(a); out[1] = raw_lanes<V>(b);
+}
+template<class V>
+__attribute__((noinline)) void flow_ld_n(typename V::scalar* buf, const typename V::scalar* src, unsigned idx, typename V::scalar nv, uint32_t n, typename Flow<V>::Lanes* out) {
+    for (unsigned i = 0; i < V::width; ++i) buf[i] = src[i];
+    V a = avel::load<V>(buf, n);
+    buf[idx] = nv;
+    V b = avel::load<V>(buf, n);
+    out[0] = raw_lanes<V>(a); out[1] = raw_lanes<V>(b);
+}
+template<class V, unsigned N>
+__attribute__((noinline)) void flow_st_ct(typename V::scalar* buf, V v1, V v2, typename V::scalar* seen) {
+    avel::store<N>(buf, v1);
+    for (unsigned i = 0; i < V::width; ++i) seen[i] = buf[i];                 // typed reads after the library's store
+    avel::store<N>(buf, v2);
+    for (unsigned i = 0; i < V::width; ++i) seen[V::width + i] = buf[i];
+}
+template<class V, unsigned N> struct FlowTab {
+    static void fill(typename Flow<V>::LdFn* l, typename Flow<V>::StFn* s) { l[N] = &flow_ld_ct<V, N>; s[N] = &flow_st_ct<V, N>; FlowTab<V, N - 1>::fill(l, s); }
+};
+template<class V> struct FlowTab<V, 0> {
+    static void fill(typename Flow<V>::LdFn* l, typename Flow<V>::StFn* s) { l[0] = &flow_ld_ct<V, 0>; s[0] = &flow_st_ct<V, 0>; }
+};
+
+template<class V>
+void run_flows(const char* type) {
+    typedef typename V::scalar T;
+    typedef typename UBits<T>::type U;
+    const unsigned W = V::width;
+    if (!opt().only_type.empty() && opt().only_type != type) return;
+    typename Flow<V>::LdFn lct[V::width + 1]; typename Flow<V>::StFn sct[V::width + 1];
+    FlowTab<V, V::width>::fill(lct, sct);
+    Rng r(opt().seed ^ hash_str(type) ^ 0xF10);
+    alignas(64) static T buf[V::width + 8];
+    const unsigned trials = (unsigned)scaled(opt().thorough ? 60 : 12);
+    if (begin_cell("C08", type, "load_after_typed_stores")) {
+        Cell& c = cell();
+        for (unsigned t = 0; t < trials; ++t) for (unsigned form = 0; form < 2; ++form) for (uint32_t n = 0; n <= W; ++n) {
+            T src[V::width]; U su[V::width];
+            for (unsigned i = 0; i < W; ++i) { su[i] = gen_val<U>(r, t % 4, i + t); if (su[i] == 0) su[i] = (U)(i + 1); src[i] = frombits<T>(su[i]); }
+            for (unsigned i = 0; i < W + 8; ++i) { U z = (U)0x5A5A5A5A5A5A5A5Aull; std::memcpy(&buf[i], &z, sizeof z); }   // stale contents a reordered load would see
+            unsigned idx = (t * 5 + n) % W;
+            U nu = (U)~su[idx]; if (nu == 0) nu = 1; T nv = frombits<T>(nu);
+            typename Flow<V>::Lanes out[2]; volatile bool ok = false;
+            VK_GUARDED(n, ("n=" + std::to_string(n) + ",form=" + (form ? "ct" : "n")), { if (form) lct[n](buf, src, idx, nv, out); else flow_ld_n<V>(buf, src, idx, nv, n, out); ok = true; });
+            c.cases++; c.cls_add((n > 255 ? 255 : n) | (form << 8));
+            if (c.cases <= 2) add_sample("for i: buf[i]=x[i]; load(buf,n); buf[k]=y; load(buf,n) n=" + std::to_string(n));
+            if (!ok) continue;
+            for (unsigned i = 0; i < W; ++i) {
+                U e0 = i < n ? su[i] : (U)0, e1 = i < n ? (i == idx ? nu : su[i]) : (U)0;
+                c.lanes += 2;
+                if (out[0][i] != e0) viol("value", n | (form << 8), (int)i, std::string("first load,n=") + std::to_string(n) + ",form=" + (form ? "ct" : "n"), hex(out[0][i]), hex(e0));
+                if (out[1][i] != e1) viol("value", n | (form << 8), (int)i, std::string("load after buf[") + std::to_string(idx) + "] was rewritten,n=" + std::to_string(n) + ",form=" + (form ? "ct" : "n"), hex(out[1][i]), hex(e1));
+            }
+        }
+        end_cell();
+    }
+    if (begin_cell("C08", type, "store_then_typed_reads")) {
+        Cell& c = cell();
+        for (unsigned t = 0; t < trials; ++t) for (uint32_t n = 0; n <= W; ++n) {
+            std::array<U, V::width> l1, l2;
+            for (unsigned i = 0; i < W; ++i) { l1[i] = gen_val<U>(r, t % 4, i + t); l2[i] = (U)~l1[i]; }
+            const U z = (U)0x5A5A5A5A5A5A5A5Aull;
+            for (unsigned i = 0; i < W + 8; ++i) std::memcpy(&buf[i], &z, sizeof z);
+            T seen[2 * V::width]; volatile bool ok = false;
+            VK_GUARDED(n, ("n=" + std::to_string(n)), { sct[n](buf, from_raw<V>(l1), from_raw<V>(l2), seen); ok = true; });
+            c.cases++; c.cls_add(n > 255 ? 255 : n);
+            if (c.cases <= 2) add_sample("store<N>(buf,v1); read buf[i]; store<N>(buf,v2); read buf[i] N=" + std::to_string(n));
+            if (!ok) continue;
+            for (unsigned i = 0; i < W; ++i) {
+                U e0 = i < n ? l1[i] : z, e1 = i < n ? l2[i] : z;
+                c.lanes += 2;
+                if (tobits(seen[i]) != e0) viol("value", n, (int)i, "typed read after first store<N>,N=" + std::to_string(n), hex(tobits(seen[i])), hex(e0));
+                if (tobits(seen[W + i]) != e1) viol("value", n, (int)i, "typed read after second store<N>,N=" + std::to_string(n), hex(tobits(seen[W + i])), hex(e1));
+            }
+        }
+        end_cell();
+    }
+}
+
 // extract<I> / insert<I>
 template<class V, unsigned I> __attribute__((noinline)) typename V::scalar ex_v(V v) { return avel::extract<I>(v); }
 template<class V, unsigned I> __attribute__((noinline)) V in_v(V v, typename V::scalar x) { return avel::insert<I>(v, x); }
@@ -358,7 +454,7 @@ void run_gs(const char* type, std::true_type) {
 
 int main(int argc, char** argv) {
     start(argc, argv, "c08_mem");
-#define RUN(V, N) run<V>(N); run_lane_access<V>(N);
+#define RUN(V, N) run<V>(N); run_flows<V>(N); run_lane_access<V>(N);
     VK_ALL_VEC_TYPES(RUN)
     return finish();
 }
